@@ -34,6 +34,14 @@ func underBaton(seed uint64, body func() int) int {
 			}
 		}
 		sort.Ints(cand)
+		if len(cand) == 0 && zzsimrt.AdvanceClock() {
+			// nobody could run: the simulated clock jumped to its next event
+			blocked = map[int]bool{}
+			for _, id := range zzsimrt.TakeSpawned() {
+				live[id] = true
+			}
+			continue
+		}
 		if len(cand) == 0 {
 			if !live[0] {
 				break // only leaked goroutines of the library remain, all blocked
